@@ -857,6 +857,17 @@ func (ex *Exec) formatArg(spec string, verb byte, arg Value, fr *Frame) StrV {
 				ns.val, ns.signed = x, isSigned(iv.typ)
 				return StrV{sym: ns}
 			}
+			if x.sort == SFP && x.w == 64 && spec == "%f" {
+				// a whole number in [0, 2^53): "%f" renders the integer's decimal digits followed by ".000000";
+				// every other symbolic float stays opaque (outside the C16 claim)
+				whole := tAnd(tEq(fpRoundInt("roundTowardZero", x), x),
+					tAnd(tNot(fpIsNeg(x)), tAnd(fpLe(fpConst64(0), x), fpLt(x, fpConst64(1<<53)))))
+				if ex.decide(whole) {
+					ns := newSymStr(symDec)
+					ns.val, ns.signed = fpToBV(x, true, 64), true
+					return ex.strConcat(StrV{sym: ns}, StrV{s: ".000000"}).(StrV)
+				}
+			}
 			return StrV{sym: newSymStr(symOpaque)}
 		}
 		switch x.sort {
@@ -1008,6 +1019,17 @@ func (ex *Exec) parseFloat(a []Value, fr *Frame, pos token.Pos) Value {
 		}
 		return TupleV{fpConst64(f), IfaceV{}}
 	}
+	if s.sym.kind == symConcat || s.sym.kind == symDec {
+		s = ex.byteForm(s)
+	}
+	if s.sym != nil && s.sym.kind == symBytes && bitSize == 64 {
+		if r, ok := ex.parseWholeDecimal(s.sym.bytes); ok {
+			return r
+		}
+	}
+	if s.sym == nil {
+		return ex.parseFloat([]Value{s, a[1]}, fr, pos)
+	}
 	key := fmt.Sprintf("parsefloat|%d", s.sym.id)
 	if r, ok := ex.natives[key]; ok {
 		return r.(TupleV)
@@ -1023,6 +1045,39 @@ func (ex *Exec) parseFloat(a []Value, fr *Frame, pos token.Pos) Value {
 	ex.natives[key] = res
 	ex.pathNatives = append(ex.pathNatives, key)
 	return res
+}
+
+// parseWholeDecimal gives strconv.ParseFloat(s, 64) on a byte string of concrete length of the form
+// digits [ "." zeros ] with 1..18 integer digits: the value is the integer, converted with round-to-nearest-even
+// (what strconv's correctly rounded conversion yields for an integer). Any other form: ok=false (the caller falls
+// back to the uninterpreted model). Forks on symbolic bytes.
+func (ex *Exec) parseWholeDecimal(bs []*Term) (Value, bool) {
+	acc := bvConst(64, 0)
+	nInt, inFrac := 0, false
+	for _, b := range bs {
+		if !inFrac && ex.decide(tEq(b, bvConst(8, '.'))) {
+			inFrac = true
+			continue
+		}
+		if inFrac {
+			if !ex.decide(tEq(b, bvConst(8, '0'))) {
+				return nil, false
+			}
+			continue
+		}
+		if !ex.decide(tAnd(bvUle(bvConst(8, '0'), b), bvUle(b, bvConst(8, '9')))) {
+			return nil, false
+		}
+		nInt++
+		if nInt > 18 {
+			return nil, false
+		}
+		acc = bvAdd(bvMul(acc, bvConst(64, 10)), bvSub(bvResize(b, 64, false), bvConst(64, '0')))
+	}
+	if nInt == 0 {
+		return nil, false
+	}
+	return TupleV{fpFromBV(acc, true, 64), IfaceV{}}, true
 }
 
 // ---------- encoding/json (concrete input only) ----------
